@@ -21,7 +21,7 @@ func init() {
 			"(1) path == \"\" returns the viper getter of the base key; (2) otherwise key = path + \".\" + K' with K' equal to the base key; (3) the presence test and the returned getter read that same key, and the presence test can tell a set zero value from an unset one where zero is a legitimate setting (bool/int); " +
 			"(4) the fallback is strings.LastIndex(path, \".\"): -1 -> self(\"\"), else self(path[0:i]) with exactly that i, and the callee is the function itself; (5) there is no other return. " +
 			"By induction on the number of path components (the reader's step, recorded in DESIGN.md) a function of shape T returns the value at the longest prefix that has one, else the base value. " +
-			"Added with the third seeding round: (5) no configuration read outside the hierarchical getters names <path>.<hierarchical variable> directly. Added with the fourth seeding round: (6) the global log level is trace; (7) a top-level key with an absence fallback is not a registered flag. Added with the fifth seeding round: (8) one function does not hand the same configuration path to two different component requests on one path, and a path built at run time starts with a literal component. Added with the sixth seeding round and the false-alarm regression: (9) HierarchicalBool is called with (literal variable, path); (10) a function that resolves a setting for its own path does not also read the top-level value of the same setting on the same path; (4) a third getter template: a walk over the prefixes of the split path, least specific first, in which the last hit wins. Added with the seventh seeding round: (3, extended) an order test that decides presence compares with zero. Added with the eighth seeding round: (11) a package-level cache of objects that are configured from Sprintf(\"….%s\", name) paths is keyed by that name. Added with the ninth seeding round: (3, extended) the presence of a list-valued setting is not asked with GetString. NOT decided: viper's own merging of flags/env/file; what 'present' means for a zero duration (visible, not judged).",
+			"Added with the third seeding round: (5) no configuration read outside the hierarchical getters names <path>.<hierarchical variable> directly. Added with the fourth seeding round: (6) the global log level is trace; (7) a top-level key with an absence fallback is not a registered flag. Added with the fifth seeding round: (8) one function does not hand the same configuration path to two different component requests on one path, and a path built at run time starts with a literal component. Added with the sixth seeding round and the false-alarm regression: (9) HierarchicalBool is called with (literal variable, path); (10) a function that resolves a setting for its own path does not also read the top-level value of the same setting on the same path; (4) a third getter template: a walk over the prefixes of the split path, least specific first, in which the last hit wins. Added with the seventh seeding round: (3, extended) an order test that decides presence compares with zero. Added with the eighth seeding round: (11) a package-level cache of objects that are configured from Sprintf(\"….%s\", name) paths is keyed by that name. Added with the ninth seeding round: (3, extended) the presence of a list-valued setting is not asked with GetString. Added with the tenth seeding round: (3, extended) presence is not decided by a type assertion on viper.Get(key). NOT decided: viper's own merging of flags/env/file; what 'present' means for a zero duration (visible, not judged).",
 		Technique: "template conformance of sibling functions on SSA: constant-format extraction, provenance of getter keys, guard/edge-deletion for the presence and fallback tests, self-call resolution",
 		Rule:      "5 clauses per hierarchical getter; the set of getters is discovered by role (self-recursive exported functions of util with a string path parameter)",
 	})
